@@ -1,8 +1,8 @@
-import PebblesVerif.Model.Merge
+import PebblesVerif.Model.ResultMerge
 /-! `leaves (merge l r) ⊆ leaves l ∪ leaves r` for the executor's merge functions, by mutual
 structural induction mirroring the mutual definitions. -/
 set_option linter.unusedSimpArgs false
-namespace PebblesVerif.Merge
+namespace PebblesVerif.ResultMerge
 open PebblesVerif
 
 theorem leavesL_append (a b : List J) : leavesL (a ++ b) = leavesL a ++ leavesL b := by
@@ -312,4 +312,4 @@ theorem mergeAll_safe : ∀ (rs : List (List (String × J))) (target : List (Str
     rw [ht]
     exact mergeAll_safe rs t
 
-end PebblesVerif.Merge
+end PebblesVerif.ResultMerge
